@@ -744,7 +744,7 @@ Proof.
     destruct (R_present s m HR j dj Hj Hm) as (Q1 & Q2 & Q3 & Q4 & Q5 & Q6 & Q7). cbv zeta in *.
     repeat split; auto.
     unfold load_hwm.
-    pose proof (hfold_covers o (seq 0 1024) 2 (N.to_nat j) (in_seq_1024 j Hj)) as G.
+    pose proof (hfold_covers o (seq 0 1024) 2 (N.to_nat j) (in_seq_1024 j Hj)) as G. cbv zeta in G.
     rewrite N2Nat.id, Ho in G by exact Hj. apply G. lia.
   - intros j k Hj Hoj Hk. rewrite Ho in Hoj, Hk by exact Hj.
     destruct (R_entry s m j HR Hj Hoj) as [E1 E2].
@@ -758,10 +758,10 @@ Proof.
     apply (R_disj s m HR a b k Ha Hb Hab Hoa Hob Hka Hkb).
   - intros k Hk. unfold load_used in Hk. apply ufold_sound in Hk.
     unfold load_hwm. destruct Hk as [Hk|(i & Hi & Hs & Hr)].
-    + pose proof (hfold_ge o (seq 0 1024) 2).
+    + pose proof (hfold_ge o (seq 0 1024) 2) as G. cbv zeta in G.
       rewrite !getB_set in Hk. destruct (N.eqb_spec k 1); [lia|]. destruct (N.eqb_spec k 0); [lia|].
       rewrite getB_empty in Hk. discriminate.
-    + pose proof (hfold_covers o (seq 0 1024) 2 i Hi Hs). unfold run_of in Hr. lia.
+    + pose proof (hfold_covers o (seq 0 1024) 2 i Hi Hs) as G. cbv zeta in G. unfold run_of in Hr. lia.
   - unfold load_hwm. apply hfold_le.
     + intros i Hi Hs. rewrite (Hoi i Hi) in *. apply in_seq in Hi.
       assert (Hnz : getN (offs s) (N.of_nat i) <> 0).
